@@ -600,6 +600,21 @@ class C10(Prop):
             if d:
                 raise AssertionError(f"regex model tables differ from re on U+{ord(ch):04X}: {d}")
         self.acheck["regex_table_code_points_checked"] = len(set(material))
+        # `Rx.CaseEqv` for real case pairs: a code point and its one-code-point upper / lower form are indistinguishable
+        # for the real `re` (classes, IGNORECASE equality with every shipped literal)
+        pairs = bad_pairs = 0
+        for ch in sorted(set(material)):
+            for alt in {ch.upper(), ch.lower()} - {ch}:
+                if len(alt) != 1 or ord(alt) in self.lower_exc or alt.casefold() != ch.casefold():
+                    continue
+                pairs += 1
+                same = all(bool(_re.fullmatch(cl, ch)) == bool(_re.fullmatch(cl, alt)) for cl in (r"\w", r"\s", r"\d")) \
+                    and all(bool(_re.fullmatch(_re.escape(a), ch, _re.I)) == bool(_re.fullmatch(_re.escape(a), alt, _re.I))
+                            for a in lits)
+                bad_pairs += 0 if same else 1
+        if bad_pairs:
+            raise AssertionError(f"re distinguishes {bad_pairs} case pairs of the text material (CaseEqv fails)")
+        self.acheck["regex_case_pairs_checked"] = pairs
         for t in BENIGN + HOSTILE + CUSTOM_SUB + ATTACK_CORPUS + [x for v in NEAR_MISS.values() for x in v] + [i for v in RX_INSTANCES.values() for i in v]:
             bad = [c for c in t if ord(c) in self.lower_exc]
             if bad:
